@@ -8,9 +8,64 @@ the repair of F17, /repo 1c42e72, there is no exceptional id).
 Helper lemmas: `Proofs/Collector.lean`.
 -/
 import DosModel.Proofs.Collector
+import DosModel.Gen.QueryLoopFacts
 
 namespace Dos.Props.C13
 open Dos Dos.Collector
+
+/-- **0. regenerated shape of `queryLoop`** (go/extract/queryloop, from the current source on every
+run) = what `Model/Collector.lean` transcribes:
+* the four select arms in this order: node context, watchdog, peer message, registration;
+* watchdog (`Ev.watchdog`): for every entry of `reqSign` whose OWN context is done – close the
+  reply channel, delete the buffer, delete the registration (`gone`);
+* peer message (`Ev.arrive` / `Ev.other`): only a `*vss.Signature` counts; key
+  `string(content.RequestId)`; membership by the `ok` idiom; registered ⇒ a select over exactly
+  `req.ctx.Done()` (drop) and `req.reply <- content` (deliver), NO default arm; not registered ⇒
+  append to `bufSign[requestID]`;
+* registration (`Ev.register`): unconditional map write `reqSign[req.requestID] = req` (a later
+  registration replaces an earlier one), flush of the WHOLE buffer (`len(signs) >= 0`), each share
+  through a select over exactly `req.ctx.Done()` and `req.reply <- sign`, then
+  `bufSign[req.requestID] = nil`.
+A change to any of these lines (another context in a select, a default arm, a guard on the
+registration or on the flush, another key) must be re-modelled: it breaks this obligation. -/
+theorem c13_code_shape :
+    Gen.QueryLoopFacts.queryLoop = [
+      "bufSign := make(map[string][]*vss.Signature)",
+      "reqSign := make(map[string]request)",
+      "peerMsg, _ := d.p.SubscribeMsg(50, vss.Signature{})",
+      "watchdog := time.NewTicker(30 * time.Minute)",
+      "for",
+      "  select",
+      "    case <-d.ctx.Done()",
+      "      return",
+      "    case <-watchdog.C",
+      "      for _, req := range reqSign",
+      "        select",
+      "          case <-req.ctx.Done()",
+      "            close(req.reply)",
+      "            delete(bufSign, req.requestID)",
+      "            delete(reqSign, req.requestID)",
+      "          default",
+      "    case msg, ok := <-peerMsg",
+      "      if ok",
+      "        if content, ok := msg.Msg.Message.(*vss.Signature); ok",
+      "          requestID := string(content.RequestId)",
+      "          if req, ok := reqSign[requestID]; ok",
+      "            select",
+      "              case <-req.ctx.Done()",
+      "              case req.reply <- content",
+      "          else",
+      "            bufSign[requestID] = append(bufSign[requestID], content)",
+      "    case req, ok := <-d.reqSignc",
+      "      if ok",
+      "        reqSign[req.requestID] = req",
+      "        if signs := bufSign[req.requestID]; len(signs) >= 0",
+      "          for _, sign := range signs",
+      "            select",
+      "              case <-req.ctx.Done()",
+      "              case req.reply <- sign",
+      "          bufSign[req.requestID] = nil"] :=
+  rfl
 
 /-- **1. exactly once per delivery, before or after registration.**  If instance `h` registers
 for request id `r` at any position of the schedule, nobody else registers for `r`, `h` registers
@@ -170,9 +225,16 @@ private def demo : List Ev :=
 
 example : deliveries demo 7 = [sh 1 0, sh 1 4, sh 1 8] ∧ deliveries demo 8 = [sh 2 1, sh 2 7] := by decide
 example : arrivalsFor [1] demo = [sh 1 0, sh 1 4, sh 1 8] := by decide
-/-- hypotheses of theorem 1 hold for `demo` split at the registration of instance 7 -/
-example : demo = [.arrive (sh 1 0), .arrive (sh 2 1), .other] ++ Ev.register 7 [1] ::
-    [.arrive (sh 1 4), .watchdog, .register 8 [2], .arrive (sh 2 7), .arrive (sh 1 8)] := rfl
+/-- theorem 1 instantiated on `demo` split at the registration of instance 7: both hypotheses hold
+(the only other registration is instance 8 for request id `[2]`; instance 7 is never cancelled) -/
+example : deliveries demo 7 = arrivalsFor [1] demo :=
+  delivered_eq_arrivals [.arrive (sh 1 0), .arrive (sh 2 1), .other]
+    [.arrive (sh 1 4), .watchdog, .register 8 [2], .arrive (sh 2 7), .arrive (sh 1 8)] 7 [1]
+    (by intro h' r' hm
+        simp at hm
+        obtain ⟨rfl, rfl⟩ := hm
+        decide)
+    (by decide)
 /-- cancellation: instance 7 stops receiving, instance 8 is unaffected; the empty request id works -/
 example : deliveries [.register 7 [], .arrive ⟨[], 1⟩, .cancel 7, .arrive ⟨[], 3⟩, .register 8 [2], .arrive (sh 2 5)] 7
     = [⟨[], 1⟩] := by decide
